@@ -118,7 +118,7 @@ def check(prog, rep):
             # R07.3 value alignment
             vv = [k.value for k in sc.keywords if k.arg == "values"]
             if vv:
-                ok, why = _values_aligned(prog, fi, vv[0], assigns, res, call, backend)
+                ok, why = _values_aligned(prog, fi, vv[0], assigns, res, call, backend, reevaluates=reevaluates)
                 if ok is None:
                     rep.undecided(f"{fi.name}: {why}")
                     continue
@@ -767,7 +767,7 @@ def _fun_is_whole_objective(prog, fi, call):
     return True if all(v is True for v in verdicts) else None
 
 
-def _values_aligned(prog, fi, vexpr, assigns, res, call, backend):
+def _values_aligned(prog, fi, vexpr, assigns, res, call, backend, reevaluates=False):
     """values = {<name of the i-th variable>: <res>.x[i]} over the variable list that defines the backend's columns.
     Accepted shapes: a dict comprehension (possibly inside a conditional expression, possibly through locals), or a loop
     filling the dict; `<res>.x` may be held in a local.  -> (True/False/None, why)"""
@@ -792,7 +792,16 @@ def _values_aligned(prog, fi, vexpr, assigns, res, call, backend):
             flags.append(False)
         else:
             flags.append(None)
-        # value: <point>[i]
+        # value: <point>[i] -- a point that was clipped / rounded / projected after the backend returned it is another
+        # point than the one `fun` was evaluated at (unless the reported objective is re-evaluated)
+        for n in ast.walk(value):
+            if isinstance(n, ast.Subscript) and isinstance(n.value, ast.Name) and not is_point(n.value):
+                defs = [v_ for v_ in assigns.get(n.value.id, []) if isinstance(v_, ast.AST)]
+                moved = [v_ for v_ in defs if isinstance(v_, ast.Call) and (dotted(v_.func) or "") in ("np.clip", "np.round", "np.around", "np.rint", "np.maximum", "np.minimum", "np.where", "np.floor", "np.ceil", "np.trunc")
+                         and any(is_point(a_) or (isinstance(a_, ast.Name) and a_.id == n.value.id) or (isinstance(a_, ast.Call) and a_.args and is_point(a_.args[0])) for a_ in v_.args)]
+                from_point = any(is_point(v_) or (isinstance(v_, ast.Call) and v_.args and is_point(v_.args[0]) and (dotted(v_.func) or "") in ("np.asarray", "np.array", "np.copy")) for v_ in defs)
+                if moved and from_point and src(n.slice) == i and not reevaluates:
+                    return False, f"the reported values come from `{n.value.id}`, the backend's point after `{src(moved[0])[:50]}`, while objective_value is the backend's fun at the unmodified point: the two no longer describe the same point"
         subs = [n for n in ast.walk(value) if isinstance(n, ast.Subscript) and is_point(n.value)]
         if any(src(n.slice) == i for n in subs):
             flags.append(True)
@@ -849,6 +858,8 @@ def _values_aligned(prog, fi, vexpr, assigns, res, call, backend):
         i, v = [src(e) for e in g.target.elts]
         seq = src(g.iter.args[0])
         ok = verdict3(comp.key, comp.value, i, v, seq)
+        if isinstance(ok, tuple):
+            return ok
         if ok is None:
             return None, f"values are built as {{{src(comp.key)}: {src(comp.value)[:40]}}} over {seq}; not every part is readable"
         return ok, (f"values[name of variable i] = {res}.x[i] over enumerate({seq}), the list that defines the backend's columns" if ok else
@@ -861,6 +872,8 @@ def _values_aligned(prog, fi, vexpr, assigns, res, call, backend):
                     if isinstance(st, ast.Assign) and isinstance(st.targets[0], ast.Subscript) and src(st.targets[0].value) == vexpr.id:
                         seq = src(n.iter.args[0])
                         ok = verdict3(st.targets[0].slice, st.value, i, v, seq)
+                        if isinstance(ok, tuple):
+                            return ok
                         if ok is None:
                             return None, f"values[{src(st.targets[0].slice)}] = {src(st.value)[:40]} over {seq}; not every part is readable"
                         return ok, (f"values[name] = {res}.x[i] over enumerate({seq})" if ok else f"values[{src(st.targets[0].slice)}] = {src(st.value)[:40]} over {seq} does not line up with the backend columns")
